@@ -314,7 +314,7 @@ func (g *vc26Gen) timestampText() string {
 	return rapid.SampledFrom([]string{"2017-01-01T00:00", "2010-07-08T14:44", "1999-12-31T23:59", "0000-00-00T00:00", "9999-19-39T99:99", "2018-02-28T13:05"}).Draw(g.t, "ts")
 }
 
-// timestampfmt <- '"' <timestampbasicfmt> '"' / '\'' <timestampbasicfmt> '\'' / <timestampbasicfmt>
+// timestampfmt <- '"' <timestampbasicfmt> '"' / '\” <timestampbasicfmt> '\” / <timestampbasicfmt>
 func (g *vc26Gen) timestampFmt(ts string) string {
 	q := rapid.SampledFrom([]string{"", "", "\"", "'"}).Draw(g.t, "tsq")
 	if q != "" {
@@ -534,7 +534,7 @@ func (g *vc26Gen) args(c *Call, used map[string]bool, depth, min, max int, reser
 	return out + g.sp()
 }
 
-// col / row <- <uint> / '\'' <singlequotedstring> '\'' / '"' <doublequotedstring> '"'
+// col / row <- <uint> / '\” <singlequotedstring> '\” / '"' <doublequotedstring> '"'
 func (g *vc26Gen) colOrRow() (interface{}, string) {
 	switch rapid.IntRange(0, 5).Draw(g.t, "ckind") {
 	case 0, 1, 2:
